@@ -393,7 +393,7 @@ var c06Patience = 60 * time.Second
 
 // runs that did not terminate, per mode: after a few of them the remaining runs of that mode are skipped
 // (each costs the whole patience; the violation is already recorded)
-var c06Hung = map[string]*int64{"mem": new(int64), "disk": new(int64)}
+var c06Hung = map[string]*int64{"mem": new(int64), "disk": new(int64), "bin/mem": new(int64), "bin/disk": new(int64)}
 
 // runLib drives obichunk.IUniqueSequence with the records in the order cfg.Perm.
 func runLib(recs []urec, opt []int, keys []string, cfg *c06Cfg) libResult {
@@ -589,7 +589,7 @@ func runBin(bin string, args []string, dir string) binResult {
 				r.rc = ee.ExitCode()
 			}
 		}
-	case <-time.After(300 * time.Second):
+	case <-time.After(150 * time.Second):
 		cmd.Process.Kill()
 		r.hung = true
 		r.rc = -3
@@ -876,6 +876,12 @@ func runOne(env *Env, c *c06Case, cfg *c06Cfg, bindir, scratch string) int {
 		}
 		return 1
 	case "bin", "law":
+		if h := c06Hung["bin/"+cfg.Mode]; h != nil && atomic.LoadInt64(h) >= 2 {
+			env.mu.Lock()
+			env.classes["bin/skipped-after-hangs"]++
+			env.mu.Unlock()
+			return 0
+		}
 		dir, err := os.MkdirTemp(scratch, "c06bin")
 		if err != nil {
 			fmt.Fprintln(os.Stderr, err)
@@ -900,7 +906,10 @@ func runOne(env *Env, c *c06Case, cfg *c06Cfg, bindir, scratch string) int {
 		r := runBin(uniq, args, dir)
 		cmdline := "obiuniq " + strings.Join(args[:len(args)-1], " ")
 		if r.hung {
-			env.fail("C06.bin.hung", cls, cmdline, cc)
+			if h := c06Hung["bin/"+cfg.Mode]; h != nil {
+				atomic.AddInt64(h, 1)
+			}
+			env.fail("C06.bin.hung", cls, cmdline+" did not terminate", cc)
 			return 1
 		}
 		if toFile {
